@@ -1,5 +1,6 @@
 import ast
 import re
+import threading
 from string import Template
 
 from outsourcer import CodeBuilder, Code, Val
@@ -13,11 +14,13 @@ from .expressions.base import Expression
 def generate_source_code(docstring, parsed):
     # The rules and classes of this grammar and of the grammars it extends: a
     # call of one of them is never a call of a built-in constructor like Seq.
-    _user_names.clear()
+    # (Kept per thread: grammars may be compiled in several threads at once.)
+    user_names = set()
     ancestor = parsed
     while ancestor is not None:
-        _user_names.update(x.name for x in ancestor.body if hasattr(x, 'name'))
+        user_names.update(x.name for x in ancestor.body if hasattr(x, 'name'))
         ancestor = ancestor.extends
+    _compilation.user_names = user_names
 
     _mark_calls_of_locals(parsed.body)
 
@@ -369,18 +372,19 @@ def _update_rule_references(rules, extends):
     visit(rules, check_refs)
 
 
-_user_names = set()
+_compilation = threading.local()
 
 
 def _is_constructor(name):
     # "Opt(x)", "Sep(x, y, allow_trailer=True)", ...: the documented constructor
     # forms, unless the grammar defines a rule or class of that name.
+    user_names = getattr(_compilation, 'user_names', ())
     constructor = getattr(ex, name, None)
     return (
-        name not in _user_names
+        name not in user_names
         and isinstance(constructor, type)
         and issubclass(constructor, Expression)
-    ) or (name not in _user_names and name in ('Left', 'Right', 'Some'))
+    ) or (name not in user_names and name in ('Left', 'Right', 'Some'))
 
 
 def _mark_calls_of_locals(node, bound=frozenset()):
